@@ -75,7 +75,7 @@ CLAIMS = {
    text="PROVED (Props/C14): every non-empty entry is exactly one logged save (stored_from_log); a usable score comes from a save of that hash with at least the requested depth and respects its bound (get_sound); "
         "the suggested move was stored with that hash; a never-stored hash yields nothing; a save is found afterwards. Tie: colliding histories compared result by result; soundness decided against the log on the Go side.", ref='5/C14, 10.4'),
  'C15': dict(cat='proof', tech='Lean 4 theorems eval_bounded / eval_no_overflow / eval_mirror + tables dumped from the running code + correspondence of exact scores',
-   text="PROVED (Props/C15, C15b): for legal material the score is strictly inside the mate range (|v| <= 15145), no int16 intermediate overflows, the evaluation never panics; evaluation of the mirror position equals the "
+   text="PROVED (Props/C15, C15b): for legal material the score is strictly outside the mate range (|v| <= evalBound, a bound computed from the tuning constants and tables regenerated from the running code; evalBound < INF - maxPlies is decided on every run, currently 14881 < 32667), no int16 intermediate overflows, the evaluation never panics; evaluation of the mirror position equals the "
         "evaluation of the position for every position with one king per side (eval_mirror, using slider exactness C12b). Tie: exact raw score compared on generated positions incl. maximal material; mirror and bound asserted "
         "on the Go side through both the uncached and the public cached entry point.", ref='5/C15, 10.4'),
  'C16': dict(cat='proof', tech='Lean 4 theorem cache_transparent (parametric) + one-square hash separation for the real keys + correspondence on histories and on the table API',
